@@ -59,6 +59,13 @@ for _mk, _parser, _sel in [
      '<a id="1" href="u">x</a><a id="2">y</a><input id="3" type="checkbox" checked="checked"/><input id="4" required="required"/>'
      '<html:a id="5" href="u"/><svg:a id="6" href="u"/><button id="7" disabled="disabled"/></body></html>',
      'xml', ':link, :checked, :required, :disabled, input:enabled'),
+    # namespace forms that need no prefix: Beautiful Soup passes the (never empty) prefix map it collected, soupsieve.select none
+    ('<feed xmlns:dc="urn:dc"><title id="1">a</title><dc:title id="2">b</dc:title><entry><title id="3"/></entry></feed>', 'xml',
+     '|title, *|entry > |title'),
+    ('<feed xmlns="urn:f" xmlns:dc="urn:dc"><title id="1">a</title><dc:title id="2">b</dc:title><x xmlns="" id="3"/></feed>', 'xml',
+     '|title, |x, *|title:first-child'),
+    ('<div id="1"><p id="2"></p></div>', 'lxml', '|div, |p, *|p'),
+    ('<div id="1"><svg id="2"><circle id="3"></circle></svg></div>', 'html5lib', '|div, |circle, *|circle, |svg'),
 ]:
     _soup = BeautifulSoup(_mk, _parser)
     _a = [e.get('id') for e in _soup.select(_sel)]
